@@ -73,6 +73,13 @@ thread_local! {
   static AUTO_TIME: Cell<bool> = const { Cell::new(true) };
   static RUN_NONCE: Cell<u64> = const { Cell::new(0) };
   static NO_PARK_VIOLATIONS: Cell<u64> = const { Cell::new(0) };
+  static RUN_EPOCH: Cell<u64> = const { Cell::new(0) };
+}
+
+/// Identifies the current run on this OS thread (changes at every `reset_run`): lets process-wide
+/// statics of the code under test (e.g. a global container) be re-created per run.
+pub fn run_epoch() -> u64 {
+  RUN_EPOCH.with(|e| e.get())
 }
 
 /// Reset all per-run state. Called by the harness on the run's OS thread before the run starts.
@@ -85,6 +92,7 @@ pub fn reset_run(rates: FaultRates, start_ns: u64) {
   NO_PARK_VIOLATIONS.with(|s| s.set(0));
   AUTO_TIME.with(|s| s.set(true));
   RUN_NONCE.with(|s| s.set(0));
+  RUN_EPOCH.with(|e| e.set(e.get() + 1));
   crate::time::reset(start_ns);
 }
 
